@@ -3,6 +3,7 @@ package ttruncate
 
 import (
 	"fmt"
+	"math"
 
 	"github.com/relex/gotils/logger"
 	"github.com/relex/slog-agent/base"
@@ -43,6 +44,9 @@ func (c *Config) VerifyConfig(schema base.LogSchema) error {
 	}
 	if c.MaxLength <= 0 {
 		return fmt.Errorf(".maxLength must be larger than zero: %d", c.MaxLength)
+	}
+	if c.MaxLength > math.MaxInt32 {
+		return fmt.Errorf(".maxLength is too large: %d", c.MaxLength)
 	}
 	if len(c.Suffix) == 0 {
 		return fmt.Errorf(".suffix is unspecified")
